@@ -49,6 +49,7 @@ fn spec_pad(sec: bool, body: usize, sig: usize) -> usize {
 }
 
 #[kani::proof]
+#[kani::unwind(18)]     // body_size_from_message_size steps down by at most one cipher block (16 bytes)
 pub fn c07_padding_twin() {
     let policy = any_policy();
     let mode = any_mode();
@@ -74,11 +75,12 @@ pub fn c07_padding_twin() {
     if m < MIN_CHUNK_SIZE {
         assert!(r.is_err(), "C07.twin.body_size_rejects_below_min_chunk");
     } else {
-        let want = m - (12 + 4 + 8 + spec_pad(secured, 1, sig) + sig);
+        // the largest body that fits together with its own padding
+        let b0 = m - (12 + 4 + 8 + sig);
+        let want = if secured { b0 - ((8 + b0 + sig) % 16) - 1 } else { b0 };
         assert!(r == Ok(want), "C07.twin.body_size_is_spec_body");
-        // never exceed the negotiated chunk size (outside the listed finding class)
-        let kf = secured && ((sig == 32 && (m - 22) % 16 >= 1 && (m - 22) % 16 <= 9) || (sig == 20 && (m - 18) % 16 >= 1 && (m - 18) % 16 <= 13));
-        if body <= want && !kf {
+        // never exceed the negotiated chunk size
+        if body <= want {
             assert!(12 + 4 + 8 + body + pad + sig <= m, "C07.twin.chunk_fits_negotiated_size");
         }
     }
@@ -102,14 +104,15 @@ pub fn c07_env_headers() {
     assert!(matches!(h, SecurityHeader::Symmetric(_)), "C07.env.non_opn_header_is_symmetric");
 }
 
-/// Witness of the known finding C07.chunk_overshoot on the real functions: expected to FAIL.
+/// Regression for the repaired finding C07.chunk_overshoot (fix 90f43ecc): the concrete case that overshot.
 #[kani::proof]
-pub fn c07_kf_overshoot_witness() {
+#[kani::unwind(18)]
+pub fn c07_full_chunk_fits_65535() {
     let c = channel(SecurityPolicy::Basic256Sha256, MessageSecurityMode::SignAndEncrypt);
     let m = 65535usize;
     let hdr = SecurityHeader::Symmetric(SymmetricSecurityHeader { token_id: 1 });
     let body = MessageChunk::body_size_from_message_size(MessageChunkType::Message, &c, m).unwrap();
     let sig = c.signature_size(&hdr);
     let (pad, _) = c.padding_size(&hdr, body, sig);
-    assert!(12 + 4 + 8 + body + pad + sig <= m, "C07.kf.full_chunk_exceeds_negotiated_size");
+    assert!(12 + 4 + 8 + body + pad + sig <= m, "C07.regress.full_chunk_fits_negotiated_size");
 }
